@@ -73,7 +73,9 @@ CHECKS["C04"] = dict(
     technique="symbolic execution of loads + BlackbirdProgram.__call__ with symbolic parameter values (lambdify'd code runs on z3-term proxies); z3 decides instance != reference run with the values substituted",
     text="Template skeletons (parameters in positional/keyword arguments, scalar initialisers, bare parameters at array positions, whole-array parameters, loop "
          "bodies, functions of parameters) are loaded and instantiated by the real code with symbolic parameter values; z3 decides for all values whether the instance "
-         "differs from the reference interpreter run on the text with the values substituted; parameter set, is_template and missing-value refusal are asserted on every path.",
+         "differs from the reference interpreter run on the text with the values substituted; parameter set, is_template and missing-value refusal are asserted on every path. "
+         "Each holding skeleton is then re-run natively with the values handed over as other Python / NumPy types and array layouts (int, numpy int64/float32/float64, "
+         "Fortran-ordered / transposed / reversed ndarrays, tuples), and with the template's parameter arrays replaced by Fortran-ordered copies; a systematic family of expression shapes is shared with C01.",
     note=E2NOTE,
 )
 
@@ -149,7 +151,8 @@ CHECKS["C19"] = dict(
     technique="symbolic execution of loads/dumps/instantiate with the iteration order of every string-hashed set forked as a symbolic permutation (order stub); z3 decides outcome inequality between order paths; PYTHONHASHSEED sweep as replay",
     text="The iteration order of every set of symbols / parameter names met by the code under test is a symbolic permutation chosen by the engine; content snapshot "
          "(modulo the documented freedom of register order), dumps() text and the text of an instance must agree on all order paths for all literal values (z3). "
-         "A differing pair of orders is reported only after a sweep over PYTHONHASHSEED values reproduces a differing digest.",
+         "A differing pair of orders is reported only after a sweep over PYTHONHASHSEED values reproduces a differing digest. Besides parsed scripts: programs assembled "
+         "through the API (object arrays mixing parameters and numbers) and include trees with same-named files in several directories; every holding case is also swept over seeds 0..7 natively.",
     note=E2NOTE,
 )
 
@@ -179,7 +182,8 @@ CHECKS["C10"] = dict(
     text="O1: 'accepted iff sentence' is the bounded language equivalence of C14 (token sequences <= N, lexer strings <= M). O2: the real syntaxError runs on every distinct "
          "parser-error state harvested from single-token mutants of a corpus, with message text, offending text, line and column symbolic; z3 decides on every path that a "
          "BlackbirdSyntaxError with the prefix 'Blackbird SyntaxError (line L:C+1)' is raised. O3: every mutant goes through loads (class and position), concretely. "
-         "The lower bound on the reported position (never earlier than the first offending token) is not decided.",
+         "The lower bound on the reported position (never earlier than the first offending token) is checked on every mutant by a viable-prefix computation. "
+         "O3b: an error at nesting depths 10..900 (brackets, signs, powers; in arguments, declarations, array rows) under the interpreter's default recursion limit, concretely.",
     note="Trusted: antlr4 runtime (reports exactly the non-sentences, calls the listener), z3 (sequence theory for O2). Error states are sampled by mutation (values inside a state are symbolic). Bounded by N, M and the corpus.",
 )
 
